@@ -104,11 +104,8 @@ HTML_ATTRS = ["", " class", ' class=""', ' class="admonition"', " class=admoniti
 HTML_INNER = ["", "x", '<p class="title">T</p>x', "<p class>T</p>", '<div class="title"></div>', "<img src>", "\n\n# h\n\n"]
 
 
-def systematic(col, tier, rng, d):
-    """Families that vary ONE thing over a value grid (each found a defect that the vocabulary had missed): every configuration field
-    and front-matter key x YAML values of every type; every attribute key x value on every construct that takes attributes; every
-    registered docutils directive x argument x body shape (leading / trailing blank lines, option blocks, nested syntax); pairs of
-    footnote / target labels over odd characters; HTML elements x attribute forms (valueless, empty, unquoted)."""
+def grid_cases():
+    """-> [(key, text, overrides)]: the one-factor grids (see `systematic`); also used by other properties' stand-ins."""
     import dataclasses
     import itertools
 
@@ -117,7 +114,6 @@ def systematic(col, tier, rng, d):
     from myst_parser.config.main import MdParserConfig
 
     allext = {"myst_enable_extensions": EXTS}
-    quick = tier == "quick"
     cases = []
     for f in dataclasses.fields(MdParserConfig):
         if f.name == "gfm_only":
@@ -145,6 +141,16 @@ def systematic(col, tier, rng, d):
             for inner in HTML_INNER:
                 cases.append((("html", tag, a1, inner), f"<{tag}{a1}>{inner}</{tag}>\n", allext))
                 cases.append((("htmli", tag, a1, inner), f"a <{tag}{a1}>{inner}</{tag}> b\n", allext))
+    return cases
+
+
+def systematic(col, tier, rng, d):
+    """Families that vary ONE thing over a value grid (each found a defect that the vocabulary had missed): every configuration field
+    and front-matter key x YAML values of every type; every attribute key x value on every construct that takes attributes; every
+    registered docutils directive x argument x body shape (leading / trailing blank lines, option blocks, nested syntax); pairs of
+    footnote / target labels over odd characters; HTML elements x attribute forms (valueless, empty, unquoted)."""
+    quick = tier == "quick"
+    cases = grid_cases()
     # the same grid through the Sphinx front end (all extensions are in its conf.py): a seeded sample
     sample = rng.sample(cases, 400 if quick else 6000)
     t1 = time.time()
